@@ -419,3 +419,52 @@ def make_lm(V, tables, default, eos=None, shared=False, dtype=None, layout=None,
             return rows, nxt
 
     return TableLM()
+
+
+# ---- optional arguments: the DOCUMENTED defaults of every entry point the property covers (round h).
+# (name, default) in signature order; None as name = positional only (RandomWalk.forward's first
+# parameter has two names in the overloads)
+DEFAULTS = {
+    "sequence_log_probs": (("dim", 0), ("eos", None)),
+    "SequenceLogProbabilities": (("dim", 0), ("eos", None)),
+    "ctc_greedy_search": (("in_lens", None), ("blank_idx", -1), ("batch_first", False), ("is_probs", False)),
+    "CTCGreedySearch": (("blank_idx", -1), ("batch_first", False), ("is_probs", False)),
+    "random_walk_advance": (("y_prev_lens", None),),
+    "RandomWalk": (("eos", None),),
+    "RandomWalk.forward": ((None, None), ("batch_size", None), ("max_iters", None)),
+    "SequentialLanguageModelDistribution": (("batch_size", None), ("initial_state", None), ("max_iters", None),
+                                            ("cache_samples", False), ("validate_args", None)),
+}
+
+
+def is_default(v, d):
+    return (v is None and d is None) or (v is not None and d is not None and type(v) is type(d) and v == d)
+
+
+def call(fn, name, req, opt, omit):
+    """fn(*req, *opt) - or, with `omit`, the same call the way a user writes it who relies on the
+    documentation: every optional argument whose value IS its documented default is left out (the
+    others go by keyword; a positional-only one stays unless everything from it on is left out)"""
+    sig = DEFAULTS[name]
+    assert len(opt) == len(sig), (name, opt)
+    if not omit:
+        return fn(*req, *opt)
+    dflt = [is_default(v, d) for v, (_, d) in zip(opt, sig)]
+    pos, kw = list(req), {}
+    for i, (v, (nm, _)) in enumerate(zip(opt, sig)):
+        if nm is None:
+            if not all(dflt[i:]):
+                pos.append(v)
+        elif not dflt[i]:
+            kw[nm] = v
+    return fn(*pos, **kw)
+
+
+def omitted(name, opt):
+    """names of the optional arguments `call(..., omit=True)` leaves out"""
+    return [nm or f"#{i}" for i, (v, (nm, d)) in enumerate(zip(opt, DEFAULTS[name])) if is_default(v, d)]
+
+
+def dtype_name(t):
+    import torch
+    return {torch.float32: "f32", torch.float64: "f64"}.get(t.dtype, str(t.dtype))
